@@ -178,6 +178,14 @@ CHECKS = {
 # Properties not claimed, with the reason.
 NOT_APPLICABLE = {}
 
+CHECKS["C17"] = {
+    "level": "fault_enumeration",
+    "technique": "runtime monitoring: enumerated loss/duplication plans on an in-memory link between the real client library and a scripted gateway (virtual time); reference simulation of the retry protocol as oracle",
+    "level_text": "For nine client API flows and RetryCount 1 and 2, every single drop/duplication of the first RetryCount+2 occurrences of every datagram of the flow in either direction, all pairs of such faults (a third of them in the quick tier) and all runs of consecutive request losses up to RetryCount+1 are injected; the API result is compared with a reference simulation and every client datagram of the flow is checked for DUP/message ID/content. PUBREL handling is checked with first/duplicated/late PUBRELs.",
+    "level_note": "faults are addressed by (direction, type, occurrence index); timing ties between acknowledgement and deadline are not generated",
+    "design_ref": "3/C17",
+}
+
 CHECKS["C27"] = {
     "level": "exploration",
     "technique": "runtime monitoring: reference-matcher oracle over callback events of the real client library driven by a scripted gateway (virtual time); exhaustive single-filter x name matrix",
